@@ -82,7 +82,11 @@ SFloatMinPrec == [BareFloat EXCEPT !.min = Some(VFloat(25)), !.precision = Some(
 SFloatMaxPrec == [BareFloat EXCEPT !.max = Some(VFloat(75)), !.precision = Some(VInt(2))]
 SFloatMinMax == [BareFloat EXCEPT !.min = Some(VFloat(25)), !.max = Some(VFloat(75))]
 \* scalars whose interplay of bounds, tolerance and pinned values matters to substitution
-SubScalars == {SFloatMinPrec, SFloatMaxPrec, SFloatMinMax, SFloat01, SInt05, SStrAlpha, SNullableStr}
+\* bounds that lie *on* the precision grid (a value just outside rounds onto the bound)
+SFloatMinOnGrid == [BareFloat EXCEPT !.min = Some(VFloat(0)), !.precision = Some(VInt(1))]
+SFloatMaxOnGrid == [BareFloat EXCEPT !.max = Some(VFloat(100)), !.precision = Some(VInt(1))]
+SubScalars == {SFloatMinPrec, SFloatMaxPrec, SFloatMinMax, SFloat01, SInt05, SStrAlpha, SNullableStr,
+               SFloatMinOnGrid, SFloatMaxOnGrid}
 
 \* the less used types as members of containers: bytes (also the empty, falsy one), uuid4, datetime,
 \* date, bool, none, a float on a precision grid -- pinned and unpinned
